@@ -244,8 +244,9 @@ Proof.
     split.
     + (* recorded: record_name at top; the body does not change _toplevel_names (not top level) *)
       assert (Er : recorded sb = recorded s0) by exact Er0.
-      rewrite Er. replace (mkG (recorded s0) (vars s0)) with s0 by (destruct s0; reflexivity).
-      apply record_inv; [apply inv_more; exact Hi|exact Hn].
+      rewrite Er.
+      assert (I0 : inv top s0 (pre ++ [OClass n refs ob])) by (apply record_inv; [apply inv_more; exact Hi|exact Hn]).
+      destruct I0 as [I1 I2]. split; [exact I1|]. simpl. apply incl_app; [exact I2|]. intros x [<-|[]]. exact Hn.
     + cbn [covered]. exists refs, ob. split; [apply in_or_app; right; left; reflexivity|]. rewrite covered_all_eq. exact B2.
   - cbn [emit_item covered]. pose proof (emit_var_ok c top s pre n a k refs Hi) as F.
     destruct (emit_var c top s n a k refs) as [o s']. destruct F as [F1 F2]. split; [exact F1|]. intros _ P. auto.
